@@ -4,6 +4,7 @@
 package main
 
 import (
+	"fmt"
 	"os"
 
 	"capnproto.org/go/capnp/v3/zverif/common"
@@ -52,9 +53,17 @@ func main() {
 		}
 		if !alive {
 			// violation, deadlock or watchdog: goroutines / locks may be left
-			// behind, continue in a fresh process
+			// behind, so this process must not run further cases.
 			flushSiteHistogram(rec)
-			rec.AbortBatch(i + 1)
+			if cfg.Mode == "selfpipe" || i+1 >= cfg.Start+cfg.Count {
+				// deterministic scenarios of a known finding: resume in a fresh process
+				rec.AbortBatch(i + 1)
+			}
+			// Cut the batch short instead of restarting a process per
+			// violation; the run can no longer pass silently.
+			rec.Count("cases_skipped_after_violation", int64(cfg.Start+cfg.Count-i-1))
+			rec.Inconclusive(fmt.Sprintf("batch cut short after a violation at index %d", i))
+			rec.AbortBatch(cfg.Start + cfg.Count)
 		}
 	}
 	flushSiteHistogram(rec)
